@@ -280,6 +280,40 @@ where
     }
 }
 
+/// Verification hooks (raw state access); only built with the `verif` feature.
+#[cfg(feature = "verif")]
+#[doc(hidden)]
+impl<T> LossyCounter<T>
+where
+    T: Clone + Eq + Hash,
+{
+    /// Build a counter from raw parts; `known` holds `(key, f, delta)`.
+    pub fn verif_from_parts(
+        epsilon: f64,
+        width: usize,
+        n: usize,
+        known: Vec<(T, usize, usize)>,
+    ) -> Self {
+        Self {
+            epsilon,
+            known: known
+                .into_iter()
+                .map(|(k, f, delta)| (k, KnownEntry { f, delta }))
+                .collect(),
+            n,
+            width,
+        }
+    }
+
+    /// Raw tracked entries as `(key, f, delta)`.
+    pub fn verif_known(&self) -> Vec<(T, usize, usize)> {
+        self.known
+            .iter()
+            .map(|(k, v)| (k.clone(), v.f, v.delta))
+            .collect()
+    }
+}
+
 #[cfg(test)]
 mod tests {
     use super::LossyCounter;
